@@ -212,8 +212,11 @@ StaleTrigger(m, st) == m.exp.kf
 OnPanic(P, m, st, e) ==
   LET kind == e.kind
       inBU == e.ev = "bu_panic"
+      \* (an execution the panic unwound through left its task without output: if the caller keeps the session and
+      \* requires the task again, it must be executed again, so it does not count as an execution of this session)
       m1 == [m EXCEPT !.aborted = TRUE, !.vstk = <<>>, !.nstk = <<>>, !.pstk = <<>>, !.build = "none", !.exp = NoExp,
-                      !.pend = NoPend, !.sessOk = FALSE, !.buOk = FALSE, !.mustSched = 0]
+                      !.pend = NoPend, !.sessOk = FALSE, !.buOk = FALSE, !.mustSched = 0,
+                      !.execd = [t \in 1..P.nt |-> IF t \in Range(st.estk) THEN 0 ELSE @[t]]]
       \* C05/C06/C07: the expected diagnosis was raised
       vExp == IF m.exp.kind # "" /\ m.exp.kind # kind /\ m.exp.own # ""
               THEN {<<m.exp.own, "wrong_abort_" \o kind>>} ELSE {}
